@@ -841,7 +841,17 @@ def r61(orig, rule):
     return 'match %s { Some((%s, %s)) => { let __r = Some(%s); __r } None => { None } }' % (e, a, b, x)
 
 
+def r62(orig, rule):
+    # E.map(|X| { S; X })   (tail expression)   ->   match E { Some(X) => { S; let __r = Some(X); __r } None => { None } }      (definition of Option::map, result named)
+    s = norm(orig)
+    m = _m(r'(.+) \. map \( \| (%s) \| \{ (.+) ; (%s) \} \)' % (ID, ID), s)
+    e, x, st, x2 = m.groups()
+    assert x == x2
+    return 'match %s { Some(%s) => { %s; let __r = Some(%s); __r } None => { None } }' % (e, x, st, x)
+
+
 GENERATORS = {
+    'R62': r62,
     'R61': r61,
     'RDBG': rdbg,
     'R60': r60,
